@@ -436,6 +436,13 @@ class Gen:
                                                   mk_field("t", ("named", "TailFixed", [("leaf", "u8"), ("named", "Foo", [])]), inline=True),
                                                   mk_field("m", ("vec", ("named", "MidFixed", [("leaf", "u8"), ("leaf", "String"), ("leaf", "bool")]))),
                                                   mk_field("z", ("named", "AllFixed", [("leaf", "u8"), ("leaf", "bool")]))], flatten_ok=False, no_ref=True))
+        # one root reaching the same generic at two instantiations: its file declares the generic once
+        self.add(mk_struct("PageG", "named", [mk_field("items", ("vec", ("param", 0))), mk_field("next", ("option", ("leaf", "u32")))],
+                           params=[("T", None)], flatten_ok=False, no_ref=True))
+        self.add(mk_struct("ListingG", "named", [mk_field("users", ("named", "PageG", [("named", "Foo", [])])),
+                                                 mk_field("names", ("named", "PageG", [("leaf", "String")])),
+                                                 mk_field("more", ("vec", ("named", "PageG", [("option", ("leaf", "bool"))])))],
+                           flatten_ok=False, no_ref=True))
         # two parameters concretised by two separate attributes (the maps of the attributes are merged)
         self.add(mk_struct("TwoFixed", "named", [mk_field("a", ("param", 0)), mk_field("b", ("vec", ("param", 1))), mk_field("c", ("option", ("param", 2)))],
                            params=[("A", None), ("B", None), ("C", None)], concrete=[(0, ("leaf", "i32")), (1, ("leaf", "String"))], concrete_split=True,
